@@ -4,3 +4,5 @@ import Homonim.Model.WindowIO
 import Homonim.Model.Orient
 import Homonim.Model.Kernel
 import Homonim.Model.Resample
+import Homonim.Model.Fuse
+import Homonim.Model.Mask
